@@ -95,6 +95,78 @@ def _worker(args):
     return out
 
 
+def _sconst(o):
+    c = const_val(o)
+    return c - (1 << 64) if c is not None and c >= (1 << 63) else c
+
+
+def _descending_cursor(ctx, mod, fn, M, inst, addr):
+    """pointer form of an end-relative access: the address is a cursor that starts at s + strlen(s) [- c] and is moved towards the
+    start of the string (`end = s + strlen(s) - 1; while (*end == '/') --end;`).  Returns None if the address is not of that
+    form, else True/False: is the access guarded by a comparison of the cursor with the start of the string?"""
+    def ptr_leaves(o, seen, neg):
+        o = M.strip(o, ("bitcast",))
+        d = fn.defn(o)
+        if d is None or d.is_param:
+            return [(o, neg)]
+        if d.op == "phi":
+            if d.id in seen:
+                return []
+            out = []
+            for v_, _ in d.incoming:
+                out += ptr_leaves(v_, seen | {d.id}, neg)
+            return out
+        if d.op == "getelementptr" and len(d.ops) == 2 and is_const(d.ops[1]) and _sconst(d.ops[1]) is not None:
+            return ptr_leaves(d.ops[0], seen, neg or _sconst(d.ops[1]) < 0)
+        return [(o, neg)]
+
+    def int_leaves(o, seen):
+        o = M.strip(o)
+        d = fn.defn(o)
+        if d is None or d.is_param:
+            return {o}
+        if d.op == "phi":
+            if d.id in seen:
+                return set()
+            out = set()
+            for v_, _ in d.incoming:
+                out |= int_leaves(v_, seen | {d.id})
+            return out
+        if d.op in ("add", "sub") and is_const(d.ops[1]):
+            return int_leaves(d.ops[0], seen)
+        return {o}
+    a0 = M.strip(addr, ("bitcast",))
+    d0 = fn.defn(a0)
+    if d0 is None or d0.is_param or d0.op not in ("phi", "getelementptr"):
+        return None
+    lv = ptr_leaves(a0, frozenset(), False)
+    if not lv or not any(n for _, n in lv):
+        return None
+    base = None
+    for leaf, _ in lv:
+        g = fn.defn(leaf)
+        if g is None or g.is_param or g.op != "getelementptr" or len(g.ops) != 2:
+            return None
+        b = M.strip(g.ops[0], ("bitcast",))
+        il = int_leaves(g.ops[1], frozenset())
+        if not il or not all(fn.defn(x) is not None and not fn.defn(x).is_param and fn.defn(x).op == "call" and mod.callee_cname(fn.defn(x)) == "strlen"
+                             and (M.strip(fn.defn(x).ops[0], ("bitcast",)) == b or M.equiv(M.strip(fn.defn(x).ops[0], ("bitcast",)), b)) for x in il):
+            return None
+        if base is not None and base != b:
+            return None
+        base = b
+    F = ctx.facts(fn)
+    for f in F.at_inst(inst):
+        if f[0] == "in":
+            continue
+        x, y = M.strip(f[1], ("bitcast",)), M.strip(f[2], ("bitcast",)) if isinstance(f[2], tuple) else f[2]
+        if x == a0 and y == base and f[0] in ("uge", "ugt", "sge", "sgt"):
+            return True
+        if y == a0 and x == base and f[0] in ("ule", "ult", "sle", "slt"):
+            return True
+    return False
+
+
 def end_index_accesses(ctx, mod):
     """[(access instruction, c, guarded?)] for every byte access s[n - c] (c >= 1) whose n derives from strlen(s)"""
     out = []
@@ -105,9 +177,13 @@ def end_index_accesses(ctx, mod):
                 continue
             addr = i.ops[0] if i.op == "load" else i.ops[1]
             g = fn.defn(addr)
+            M = M or Matcher(fn)
+            pw = _descending_cursor(ctx, mod, fn, M, i, addr)
+            if pw is not None:
+                out.append((i, 1, pw))
+                continue
             if g is None or g.is_param or g.op != "getelementptr" or len(g.ops) != 2:
                 continue
-            M = M or Matcher(fn)
             base = M.strip(g.ops[0], ("bitcast",))
             idx = M.strip(g.ops[1])
             di = fn.defn(idx)
